@@ -83,6 +83,7 @@ PROPS = {
         "parts": [
             {"engine": "D", "crate": "d_node", "harnesses": [
                 {"name": "c04_key_binding", "covers": ["foreign_key", "derived_key"], "quick": {"max_paths": 1000, "timeout": 600}},
+                {"name": "c07_union", "covers": ["transactions", "registers"], "quick": {"max_paths": 1000, "timeout": 600}},
             ]},
         ],
         "assumptions": NODE_ASSUMPTIONS,
@@ -129,6 +130,7 @@ PROPS = {
                 {"name": "c08_complete", "covers": ["arrival", "early"], "quick": {"max_paths": 100000, "timeout": 600}},
                 {"name": "c08_batch_dedupe", "covers": ["ran", "scheduled_some"], "quick": {"max_paths": 100000, "timeout": 600}},
                 {"name": "c08_farthest", "covers": ["kept", "dropped"], "quick": {"max_paths": 100000, "timeout": 600}},
+                {"name": "c09_range_follows", "covers": ["ran"], "quick": {"max_paths": 10000, "timeout": 600}},
                 {"name": "c08_progress", "covers": ["done"], "quick": {"max_paths": 100000, "timeout": 900}},
             ]},
         ],
@@ -147,6 +149,7 @@ PROPS = {
             {"engine": "D", "crate": "d_net", "harnesses": [
                 {"name": "c09_advertise", "covers": ["ran", "skipped_by_min_interval", "recently_served_peer_skipped"], "quick": {"max_paths": 100000, "timeout": 900}},
                 {"name": "c09_receive", "covers": ["eligible_sender", "ineligible_sender"], "quick": {"max_paths": 100000, "timeout": 600}},
+                {"name": "c09_range_follows", "covers": ["ran"], "quick": {"max_paths": 10000, "timeout": 600}},
                 {"name": "c09_divergent_version", "covers": ["ran"], "quick": {"max_paths": 1000, "timeout": 600}},
             ]},
         ],
@@ -161,6 +164,7 @@ PROPS = {
         "parts": [
             {"engine": "D", "crate": "d_net", "harnesses": [
                 {"name": "c11_candidates", "covers": ["by_range", "close_group_fallback"], "quick": {"max_paths": 100000, "timeout": 900}},
+                {"name": "c08_add_multi", "covers": ["scheduled_some", "at_limit", "queued_and_scheduled"], "quick": {"max_paths": 100000, "timeout": 900}},
                 {"name": "c11_sort_peers", "covers": ["ok", "too_few"], "quick": {"max_paths": 100000, "timeout": 900}},
                 {"name": "c11_calc_closest", "covers": ["range_filter", "k_nearest"], "quick": {"max_paths": 100000, "timeout": 900}},
             ]},
